@@ -82,6 +82,11 @@ def strip_model(it, recv: VStr, chars, left=True, right=True):
         a = it.path.const("strip_l", STR)
         b = it.path.const("strip_r", STR)
         it.path.assume(recv.t == z3.Concat(a, r, b))
+        if len(cs) == 1:
+            # consequences of a, b in c*, stated without a regular expression (cheap for the solvers)
+            c1 = z3.StringVal(cs)
+            for x in (a, b):
+                it.path.assume(z3.Or(x == z3.StringVal(""), z3.And(z3.PrefixOf(c1, x), z3.SuffixOf(c1, x))))
         if left:
             it.path.assume(z3.InRe(a, cre))
             for c in cs:
@@ -111,8 +116,9 @@ def split_model(it, recv: VStr, sep):
     key = ("split", _tid(recv.t), _tid(sep.t))
 
     def build():
-        n = it.path.const("split_n", INT)
-        arr = it.path.const("split_parts", z3.ArraySort(INT, STR))
+        # functions of (s, sep), so that equal strings have equal splits
+        n = z3.Function("str.split.n", STR, STR, INT)(recv.t, sep.t)
+        arr = z3.Function("str.split.parts", STR, STR, z3.ArraySort(INT, STR))(recv.t, sep.t)
         it.path.assume(n >= 1)
         j = z3.FreshConst(INT, "j")
         it.path.assume(
@@ -242,6 +248,18 @@ def call_method(it, recv: VStr, name: str, args, kwargs):
         return strip_model(it, recv, chars, left=name != "rstrip", right=name != "lstrip")
     if name == "split":
         if len(args) > 1 or kwargs:
+            c0, c1 = vals.concrete_str(recv), vals.concrete_str(args[0])
+            mx = vals.concrete_int(args[1]) if len(args) > 1 else None
+            if c0 is not None and c1 is not None and mx is not None:
+                return VList(items=[VStr(z3.StringVal(p_), recv.b) for p_ in c0.split(c1, mx)])
+            if c1 is not None and mx == 1:
+                # s.split(sep, 1): [s] if sep not in s else [before first sep, rest]
+                i = z3.IndexOf(recv.t, args[0].t, 0)
+                if it.path.branch(i < 0):
+                    return VList(items=[recv])
+                n = z3.Length(recv.t)
+                return VList(items=[VStr(z3.SubString(recv.t, 0, i), recv.b),
+                                    VStr(z3.SubString(recv.t, i + z3.Length(args[0].t), n), recv.b)])
             raise Unsupported("split with maxsplit")
         return split_model(it, recv, args[0] if args else None)
     if name in ("startswith", "endswith"):
@@ -289,6 +307,14 @@ def call_method(it, recv: VStr, name: str, args, kwargs):
         return VStr(z3.Replace(recv.t, a, b), recv.b) if False else VStr(uf("str.replace_all", STR, STR, STR, STR)(recv.t, a, b), recv.b)
     if name == "format":
         return VStr(P.const("formatted", STR), recv.b)
+    if name == "removeprefix":
+        pre = _s(args[0], recv)
+        n = z3.Length(recv.t)
+        return VStr(z3.If(z3.PrefixOf(pre, recv.t), z3.SubString(recv.t, z3.Length(pre), n), recv.t), recv.b)
+    if name == "removesuffix":
+        suf = _s(args[0], recv)
+        n = z3.Length(recv.t)
+        return VStr(z3.If(z3.SuffixOf(suf, recv.t), z3.SubString(recv.t, 0, n - z3.Length(suf)), recv.t), recv.b)
     if name == "find":
         return VInt(z3.IndexOf(recv.t, _s(args[0], recv), 0))
     if name in ("isdigit",):
